@@ -17,6 +17,21 @@ CHECKS = {
         "list.sort stable; hand-written model tied only on the explored histories; py2lean translator for __lt__.",
    technique="Lean 4 refinement proof + model/implementation differential correspondence",
    design="6 C17"),
+ "C19": dict(
+   text="Lean 4 proof about the model of PosPriorityQueue's maintenance machinery: (1) counters_inv - in every state reachable "
+        "by any history last_maintenance <= min(n_inserted,n_removed); (2) maintenance_prompt/maintenance_within - from every "
+        "such state a sustained pop/append load triggers do_maintenance within max(10,len)+1 rounds, a bound that depends on "
+        "the queue length only; (3) boost_safe - a boost only touches regular entries inserted more than a queue length ago "
+        "whose base priority is above the most urgent regular priority, makes them more urgent by at most "
+        "factor*(base-min), never changes class/arrival (positional entries stay first); (4) boost_overtakes - a draw with "
+        "draw*factor>1 puts the straggler ahead of every regular entry. update_counters and compute_priority_boost are "
+        "regenerated from the source by the translator on every run and proved equal to the model's; the rest of the model is "
+        "tied by differential correspondence (counters, boosts, pop order after each op), plus an independent oracle on the "
+        "real queue (pops until the straggler runs as a function of length and history; safety of every boost observed).",
+   note="Trusted: Lean kernel + standard axioms; model of do_maintenance/boost_stragglers tied only on explored histories; "
+        "Rat vs float compared with 1e-9 relative tolerance; random.random() replaced by a fixed value; heapq contract.",
+   technique="Lean 4 invariant + arithmetic proofs, source-to-Lean translation of the counter logic, differential correspondence",
+   design="6 C19"),
 }
 
 def main():
